@@ -48,7 +48,11 @@ static void histInput(const char* what, const char* p, size_t n, const char* p2 
   if (p2) { hist.add(", \""); hist.addEsc(p2, n2); hist.add("\""); }
   hist.add(")\n");
 }
+#ifndef VERIF_NO_PRIVATE
 static const char* sdata(const String& s) { return s.data->str; }
+#else
+static const char* sdata(const String& s) { return (const char*)s; }   // fallback flavour: public conversion only
+#endif
 static bool sEq(const String& s, const char* p, size_t n) { return s.length() == n && !memcmp(sdata(s), p, n); }
 static void esc(Text& t, const String& s) { t.add("\""); t.addEsc(sdata(s), s.length()); t.add("\""); }
 
@@ -332,7 +336,14 @@ static void resyncName(int i) {
   if (F->name[i] < 0) F->name[i] = F->newIno();
   bset(F->inos[(size_t)F->name[i]]->d, d.d, d.n);
 }
-static void resyncPos(Hnd& h) { if (h.open) h.pos = (long)lseek((int)(intptr_t)h.f->fp, 0, SEEK_CUR); }
+#ifndef VERIF_NO_PRIVATE
+static int fdOf(Hnd& h) { return (int)(intptr_t)h.f->fp; }
+static long posOf(Hnd& h) { return (long)lseek(fdOf(h), 0, SEEK_CUR); }
+#else   // fallback flavour: no access to the descriptor; the offset is read through the public seek()
+static int fdOf(Hnd&) { return -1; }
+static long posOf(Hnd& h) { return (long)h.f->seek(0, File::currentPosition); }
+#endif
+static void resyncPos(Hnd& h) { if (h.open) h.pos = posOf(h); }
 
 static void verifyDisk() {
   char k[220];
@@ -358,10 +369,10 @@ static void verifyDisk() {
     Hnd& h = F->h[i];
     if (h.f->isOpen() != h.open) { snprintf(k, sizeof k, "%s/isOpen", (const char*)ctx); fail(k, "isOpen() = %d, model %d", (int)h.f->isOpen(), (int)h.open); }
     if (!h.open) continue;
-    int fd = (int)(intptr_t)h.f->fp; long p = (long)lseek(fd, 0, SEEK_CUR);
+    int fd = fdOf(h); long p = posOf(h);
     if (p != h.pos) { snprintf(k, sizeof k, "%s/position", (const char*)ctx); fail(k, "handle %d is at offset %ld, model %ld", i, p, h.pos); }
     Bytes& m = F->inos[(size_t)h.ino]->d; struct stat st;
-    if (fstat(fd, &st) != 0 || (size_t)st.st_size != m.n) { snprintf(k, sizeof k, "%s/open-file-size", (const char*)ctx); fail(k, "file behind handle %d has %ld bytes, model %lu", i, (long)st.st_size, (unsigned long)m.n); }
+    if (fd >= 0 && (fstat(fd, &st) != 0 || (size_t)st.st_size != m.n)) { snprintf(k, sizeof k, "%s/open-file-size", (const char*)ctx); fail(k, "file behind handle %d has %ld bytes, model %lu", i, (long)st.st_size, (unsigned long)m.n); }
   }
 }
 
